@@ -301,26 +301,34 @@ func (x *fnv) rtKind(s *State, t *Term) *Term {
 func (x *fnv) modelMutex(s *State, call *ast.CallExpr, lock bool) {
 	c := x.c
 	sel := ast.Unparen(call.Fun).(*ast.SelectorExpr)
-	mu, ok := ast.Unparen(sel.X).(*ast.SelectorExpr)
-	if !ok {
-		panic(unsupported("mutex that is not a struct field: %s", types.ExprString(sel.X)))
+	var addr *Term
+	if _, isPtr := x.typeOf(sel.X).Underlying().(*types.Pointer); isPtr {
+		// a *sync.Mutex value (e.g. obtained from &obj.mu)
+		p := x.eval(s, sel.X)
+		x.safe(s, "nil", c.Not(c.Eq(p.Term, c.Int(0))), call.Pos())
+		addr = p.Term
+	} else {
+		mu, ok := ast.Unparen(sel.X).(*ast.SelectorExpr)
+		if !ok {
+			panic(unsupported("mutex that is neither a struct field nor a pointer: %s", types.ExprString(sel.X)))
+		}
+		owner := x.eval(s, mu.X)
+		pt, ok := owner.T.Underlying().(*types.Pointer)
+		if !ok {
+			panic(unsupported("mutex owner is not a pointer"))
+		}
+		x.safe(s, "nil", c.Not(c.Eq(owner.Term, c.Int(0))), call.Pos())
+		addr = x.muAddr(s, pt.Elem(), mu.Sel.Name, owner.Term)
 	}
-	owner := x.eval(s, mu.X)
-	pt, ok := owner.T.Underlying().(*types.Pointer)
-	if !ok {
-		panic(unsupported("mutex owner is not a pointer"))
-	}
-	rn := lockRegion(pt.Elem(), mu.Sel.Name)
+	rn := lockRegionName
 	m := x.h.region(s, rn, 1, SBool)
-	held := c.Read(m, owner.Term, nil)
+	held := c.Read(m, addr, nil)
 	if lock {
 		x.oblige(s, "lock", "acquire."+itoa(x.nextOrd("lock")), c.Not(held), call.Pos(), nil)
-		s.mem[rn] = c.Store(m, owner.Term, nil, c.True())
-		x.lockAcquired(s, pt.Elem(), mu.Sel.Name, owner.Term, call)
+		s.mem[rn] = c.Store(m, addr, nil, c.True())
 	} else {
-		x.lockReleasing(s, pt.Elem(), mu.Sel.Name, owner.Term, call)
 		x.oblige(s, "lock", "release."+itoa(x.nextOrd("lock")), held, call.Pos(), nil)
-		s.mem[rn] = c.Store(m, owner.Term, nil, c.False())
+		s.mem[rn] = c.Store(m, addr, nil, c.False())
 	}
 }
 
